@@ -124,6 +124,10 @@ func (ps *PrintState) Print(str ...string) *PrintState {
 	return ps
 }
 
+func isWordByte(b byte) bool {
+	return b == '_' || (b >= '0' && b <= '9') || (b >= 'a' && b <= 'z') || (b >= 'A' && b <= 'Z') || b >= 0x80
+}
+
 // --- AST nodes
 
 // Everything in the tree is a Node.
@@ -201,7 +205,9 @@ func prettyPrintCompact(ps *PrintState, s Node, i int) bool {
 	}
 	_, prevIsExpr := ps.prev.(*InfixExpression)
 	_, curIsArray := s.(*ArrayLiteral)
-	if curIsArray || (prevIsExpr && ps.last != "}" && ps.last != "]") {
+	// two statements a and b: without a separator the lexer would see the identifier ab.
+	prevEndsWord := ps.last != "" && isWordByte(ps.last[len(ps.last)-1])
+	if curIsArray || (prevIsExpr && ps.last != "}" && ps.last != "]") || prevEndsWord {
 		if i > 0 {
 			_, _ = ps.Out.Write([]byte{' '})
 		}
